@@ -287,6 +287,34 @@ let show_response (r : response) : string =
 
 let rec nat_of_int (i : int) = if i <= 0 then O else S (nat_of_int (i - 1))
 
+(* all sub-expressions *)
+let rec subexprs (e : expr) : expr list =
+  e :: (match e with
+      | EInt _ | EStr _ | EVar _ | EBreak _ | EContinue _ | EUnsupported _ -> []
+      | EBin (_, _, l, r) -> subexprs l @ subexprs r
+      | ELet (_, _, e) | EAssign (_, _, _, e) | EUpd (_, _, _, _, e) | EParen (_, e) -> subexprs e
+      | EIf (_, c, t, el) -> subexprs c @ List.concat_map subexprs t @ (match el with Some l -> List.concat_map subexprs l | None -> [])
+      | EWhile (_, c, b) -> subexprs c @ List.concat_map subexprs b
+      | EFor (_, _, it, b) -> subexprs it @ List.concat_map subexprs b
+      | EReturn (_, o) -> (match o with Some e -> subexprs e | None -> [])
+      | EList (_, l) | ETuple (_, l) -> List.concat_map subexprs l
+      | ECall (_, f, a) -> subexprs f @ List.concat_map subexprs a
+      | EFun (_, _, b) -> List.concat_map subexprs b
+      | EMatch (_, s, cs) -> subexprs s @ List.concat_map (fun (_, b) -> List.concat_map subexprs b) cs)
+
+let meta_of (e : expr) : meta = emeta e
+
+(* The model identifies the expression to stop at by (used, start, end); the implementation by a unique id.
+   A run request whose last expression shares these with any other expression that can be evaluated is outside
+   the model. *)
+let ambiguous_stop (p : prog) (es : expr list) : bool =
+  match List.rev es with
+  | [] -> false
+  | last :: _ ->
+    let m = meta_of last in
+    let all = List.concat_map subexprs es @ List.concat_map (fun (_, fd) -> List.concat_map subexprs fd.fbody) p.funs in
+    List.length (List.filter (fun e -> meta_of e = m) all) > 1
+
 (* expressions of one `run` input: toplevel expressions and toplevel blocks; definitions are not allowed here *)
 let conv_run_items (items : sx list) : expr list =
   let exprs = ref [] in
@@ -328,6 +356,7 @@ let () = register "session" (fun args ->
                 | "run" ->
                   let es = conv_run_items (parse_sexps payload) in
                   if List.exists has_unsupported_expr es then raise (Unsup "expression outside the model");
+                  if ambiguous_stop p es then raise (Unsup "ambiguous stop id");
                   RRun es
                 | "replace" ->
                   (match conv_run_items (parse_sexps payload) with
